@@ -4,12 +4,14 @@
 //! the half-step grid x every k x every realised radius (and its floating-point neighbours) x four
 //! metrics x both search structures, judged against brute force with the same `Distance` object;
 //! structured larger sets (n <= 200, 1..6 dimensions); the scale-boundary alphabet of the cover
-//! tree; every labelling / k / weight / structure for the two estimators.
+//! tree; every labelling / k / weight / structure for the two estimators; ring layouts around a
+//! centre point (round 2, `ring.rs`).
 //! E2: explicit-state search over the real `HeapSelection`.
 
 mod data;
 mod est;
 mod heap;
+mod ring;
 mod search;
 
 use data::*;
@@ -35,11 +37,49 @@ fn draw_points(job: &Job, n: usize, letters: usize) -> Vec<usize> {
     p
 }
 
+/// Ring layout of a job: m, radius and dimension are fixed by the job; second ring, order and the
+/// position of the centre are chosen.
+fn ring_layout(job: &Job) -> ring::Layout {
+    let ring2 = mc::choose(job.u("nring2"));
+    let order = mc::choose(ring::ORDERS.len());
+    let centre_last = mc::choose(2) == 1;
+    ring::Layout { m: job.u("m"), r: ring::radii()[job.u("ri")], ring2, order, centre_last, dim: job.u("dim") }
+}
+
+fn run_ring_est<T: Fl>(job: &Job, seed: u64) {
+    let m = seed_map(seed);
+    let metric = Metric::parse(job.s("metric"));
+    let kind = if job.s("est") == "cls" { est::Kind::Classifier } else { est::Kind::Regressor };
+    let values: Vec<f64> = job.params["values"].as_array().unwrap().iter().map(|v| v.as_f64().unwrap()).collect();
+    let lay = ring_layout(job);
+    let labelling = mc::choose(job.u("nlabellings"));
+    let data = lay.data(m);
+    let n = data.len();
+    let y: Vec<f64> = lay.labels(labelling, values.len()).iter().map(|&c| values[c]).collect();
+    let k = mc::choose(n + 2);
+    let distance_weighted = mc::choose(2) == 1;
+    let cover_tree = mc::choose(2) == 0;
+    mc::count("ring_estimator_executions");
+    est::est_case::<T>(&data, &y, &lay.queries(m), &est::Cfg { kind, metric, k, distance_weighted, cover_tree });
+}
+
 fn run_search<T: Fl>(job: &Job, seed: u64) {
     let m = seed_map(seed);
     let metric = Metric::parse(job.s("metric"));
-    let n = job.u("n");
+    let n = job.params["n"].as_u64().unwrap_or(0) as usize;
     match job.kind() {
+        "ring" => {
+            // round 2: centre + one or two rings; the remaining layout choices and the query are drawn here
+            let lay = ring_layout(job);
+            let data = lay.data(m);
+            let queries = lay.queries(m);
+            let q = mc::choose(queries.len());
+            mc::count("ring_search_executions");
+            if T::NAME == "f64" {
+                ring::inspect(metric, &data, &queries[q]);
+            }
+            search::search_case::<T>(metric, &data, &queries[q], &Opts { all_radii: true, all_k: true });
+        }
         "lat2" => {
             let p = draw_points(job, n, 9);
             let q = mc::choose(NQ2);
@@ -229,12 +269,78 @@ impl Harness for C04 {
                 }
             }
         }
+        // ---- round 2: ring / annulus layouts around one centre point (see ring.rs)
+        // Inverted nodes (child radius > parent radius) need >= 14 points per ring in 2-D on this tree
+        // (a ring point must adopt a neighbour 40..54 degrees away that in turn adopts one beyond 60
+        // degrees), so the quick tier adds m = 15, 16 (Euclidean, 2-D) to the small rings m = 3..=8.
+        let ring_m_max = if t { 16 } else { 8 };
+        let ring_m_large: &[usize] = if t { &[] } else { &[15, 16] };
+        let ring_est_m_max = if t { 12 } else { 8 };
+        let nring2 = if t { ring::NRING2_THOROUGH } else { ring::NRING2_QUICK };
+        let nlabellings = if t { 2 } else { 1 };
+        // (dim, metric, f32)
+        let mut ring_search: Vec<(usize, Metric, bool)> = vec![(2, Metric::Euclid, false), (2, Metric::Manhattan, false), (3, Metric::Euclid, false)];
+        let mut ring_est: Vec<(usize, Metric)> = vec![(2, Metric::Euclid)];
+        if t {
+            ring_search = Vec::new();
+            for dim in [2, 3] {
+                all.iter().for_each(|&mt| ring_search.push((dim, mt, false)));
+                ring_search.push((dim, Metric::Euclid, true));
+            }
+            // no Hamming for the estimators: all ring points tie there, the oracle enumerates subsets of ties
+            ring_est = vec![(2, Metric::Euclid), (2, Metric::Manhattan), (3, Metric::Euclid), (3, Metric::Manhattan)];
+        }
+        let ring_job = |dim: usize, mm: usize, ri: usize, metric: Metric, f32_: bool| {
+            Job::new(
+                format!("ring-d{}-m{}-r{}-{}{}", dim, mm, ri, metric.name(), if f32_ { "-f32" } else { "" }),
+                json!({"kind": "ring", "dim": dim, "m": mm, "ri": ri, "metric": metric.name(), "nring2": nring2, "f32": f32_, "seed": seed}),
+            )
+        };
+        for mm in 3..=ring_m_max {
+            for &(dim, metric, f32_) in &ring_search {
+                (0..ring::radii().len()).for_each(|ri| jobs.push(ring_job(dim, mm, ri, metric, f32_)));
+            }
+            if mm > ring_est_m_max {
+                continue;
+            }
+            for &(dim, metric) in &ring_est {
+                for (est, values) in [("cls", &CLS_LABELS[..]), ("reg", &REG_TARGETS[..]), ("cls", &CLS_LABELS2[..])] {
+                    if values.len() == 2 && !(t && metric == Metric::Euclid) {
+                        continue;
+                    }
+                    for ri in 0..ring::radii().len() {
+                        jobs.push(Job::new(
+                            format!("ringknn-{}-d{}-m{}-r{}-{}-v{}", est, dim, mm, ri, metric.name(), values.len()),
+                            json!({"kind": "ringknn", "est": est, "dim": dim, "m": mm, "ri": ri, "metric": metric.name(), "nring2": nring2, "nlabellings": nlabellings, "values": values, "f32": false, "seed": seed}),
+                        ));
+                    }
+                }
+            }
+        }
+        for &mm in ring_m_large {
+            (0..ring::radii().len()).for_each(|ri| jobs.push(ring_job(2, mm, ri, Metric::Euclid, false)));
+            // estimators on the large rings: single ring only (n = m + 1)
+            for (est, values) in [("cls", &CLS_LABELS[..]), ("reg", &REG_TARGETS[..])] {
+                for ri in 0..ring::radii().len() {
+                    jobs.push(Job::new(
+                        format!("ringknn-{}-d2-m{}-r{}-euclidean-v{}-single", est, mm, ri, values.len()),
+                        json!({"kind": "ringknn", "est": est, "dim": 2, "m": mm, "ri": ri, "metric": "euclidean", "nring2": 1, "nlabellings": 1, "values": values, "f32": false, "seed": seed}),
+                    ));
+                }
+            }
+        }
+        let jobs = {
+            let mut j: Vec<Job> = jobs;
+            j.insert(0, Job::new("builders", json!({"kind": "builders"})));
+            j
+        };
         Plan {
             jobs,
             budget_s: if t { 2400 } else { 40 },
             case_deadline_ms: 20_000,
             // about a tenth of what the quick tier counts at seed 0
             floors: vec![
+                ("builder_chains", 5),
                 ("tie_between_neighbours", 300_000),
                 ("query_coincides_with_a_point", 50_000),
                 ("knn_not_a_prefix_of_data_order", 300_000),
@@ -254,8 +360,14 @@ impl Harness for C04 {
                 ("heap_element_equal_to_root_arrived", 100),
                 ("heap_peek_mut_then_heapify", 40),
                 ("heap_plain_heapify", 60),
+                // round 2 (ring layouts): about a fifth of what the quick tier counts at its poorest seed
+                ("ring_search_executions", 100_000),
+                ("ring_estimator_executions", 80_000),
+                ("ring_tree_child_radius_exceeds_parent", 1_500),
+                ("ring_query_needs_child_radius", 400),
             ],
             bounds: json!({
+                "builders": mc_sc::builders::BOUNDS,
                 "lattice_3x3": format!("every sequence of 1..{} points x 25 half-step queries, all 4 metrics; Manhattan up to {} points; Euclidean up to {} points; f32 up to {} points", lat2_all_metrics, lat2_manhattan, lat2_euclid, if t { 5 } else { 3 }),
                 "lattice_1d": format!("every sequence of 1..{} points of {{0..4}} x 11 half-step queries, all 4 metrics", lat1_max),
                 "scale_boundary_alphabet": format!("every sequence of 2..{} points over {} letters (0, 1.3^s and its two floating-point neighbours, s=-2..3) x {} queries; Euclidean and Manhattan", if t { 4 } else { 3 }, nletters, nletters + 1),
@@ -269,6 +381,17 @@ impl Harness for C04 {
                     if t { "every k in 0..=n+1 for n<=125, for n=200 k in {0,1,2,3,5,8,n/4,n/2,n-2,n-1,n,n+1,n+7}; every realised radius for n<=64, else radii at ranks {0,1,2,3,m/4,m/2,m-2,m-1}" } else { "every k for n<=12, else k in {0,1,2,3,5,8,n/4,n/2,n-2,n-1,n,n+1,n+7}; radii at ranks {0,1,2,3,m/4,m/2,m-2,m-1} of the distinct distances" }
                 ),
                 "estimators": format!("1-D sequences up to {} points (5 points: Euclidean and Hamming only), 3x3 sequences up to {} points x every labelling over {:?} / {:?} / targets {:?} x k in 0..=n+1 x 2 weights x 2 structures x all queries of the grid; metrics {:?}", est1_max, est2_max, CLS_LABELS, CLS_LABELS2, REG_TARGETS, est_metrics.iter().map(|m| m.name()).collect::<Vec<_>>()),
+                "ring_layouts": format!(
+                    "data = centre (origin) + m points equally spaced on a circle of radius r, coordinates rounded to multiples of 2^-20; m in {}; r in {{1, 1.1, 1.3, 1.3^2, 2}}; second ring (m points) in {{none, 2r, 2r half-step offset, r/2, r/2 half-step offset{}}}; order of the ring points in {:?}; centre first or last; 2-D, and 3-D (odd ring-1 positions lifted by r/2, ring 2 in the plane z=-r/2); queries: every data point, arc midpoints of every ring, radius r-1/16 and r+1/16 in 8 directions; per case: both structures x every k in 0..=n+1 x every realised radius and its neighbours; search jobs (dim, metric, float): {}; estimators (one fit+predict of all queries per (layout, labelling, k in 0..=n+1, weight, structure), labels by ring position mod 3{}): m <= {} for {:?}{}",
+                    if t { "3..=16".to_string() } else { "3..=8 (all search jobs) and {15, 16} (Euclidean 2-D f64; smaller rings build no node whose child radius exceeds the parent's)".to_string() },
+                    if t { ", 2r quarter-step, r/2 quarter-step" } else { "" },
+                    ring::ORDERS,
+                    ring_search.iter().map(|(d, mt, f)| format!("{}-D {}{}", d, mt.name(), if *f { " f32" } else { "" })).collect::<Vec<_>>().join(", "),
+                    if t { " and by half-plane" } else { "" },
+                    ring_est_m_max,
+                    ring_est.iter().map(|(d, mt)| format!("{}-D {}", d, mt.name())).collect::<Vec<_>>(),
+                    if t { "" } else { "; single ring m in {15, 16} Euclidean 2-D" }
+                ),
                 "heap_selection_e2": if t { "k in 1..7, add(v) v in 0..5, heapify, peek_mut+heapify; depth 11" } else { "k in 1..5, add(v) v in 0..4, heapify, peek_mut+heapify; depth 8" },
                 "seed_map": format!("coordinates c -> {}*c + {}", seed_map(seed).0, seed_map(seed).1),
             }),
@@ -276,6 +399,9 @@ impl Harness for C04 {
     }
 
     fn run(&self, job: &Job) {
+        if job.kind() == "builders" {
+            return mc_sc::builders::run("C04");
+        }
         let seed = job.params["seed"].as_u64().unwrap_or(0);
         let f32_ = job.b("f32");
         match job.kind() {
@@ -285,6 +411,13 @@ impl Harness for C04 {
                     run_est::<f32>(job, seed)
                 } else {
                     run_est::<f64>(job, seed)
+                }
+            }
+            "ringknn" => {
+                if f32_ {
+                    run_ring_est::<f32>(job, seed)
+                } else {
+                    run_ring_est::<f64>(job, seed)
                 }
             }
             _ => {
@@ -309,7 +442,7 @@ impl Harness for C04 {
     }
 
     fn rule(&self) -> String {
-        "search: one execution = one (point sequence, query, metric, float type), checked on both structures for every k and every radius of the radius alphabet; non-trivial when n >= 2 and at least one structure was built; estimators: one execution = one (point sequence, labelling, k, weight, structure), predictions for all queries of the grid, non-trivial when predictions were returned; distinct = distinct digest of the returned (index, distance) lists / predictions".into()
+        "search: one execution = one (point sequence or ring layout, query, metric, float type), checked on both structures for every k and every radius of the radius alphabet; non-trivial when n >= 2 and at least one structure was built; estimators: one execution = one (point sequence, labelling, k, weight, structure), predictions for all queries of the grid, non-trivial when predictions were returned; distinct = distinct digest of the returned (index, distance) lists / predictions".into()
     }
 
     fn assumptions(&self) -> Vec<String> {
